@@ -1,6 +1,7 @@
 import Xo.Model.CSem
 import Xo.Lemmas.CApiLayout
 import Xo.Lemmas.CApiFields
+import Xo.Lemmas.CApiPath
 /-! C02 — generated C accessors address the same bytes as the documented layout (property theorems only).
 
 Everything here is quantified over ALL part lists (so in particular over every access path that
@@ -196,6 +197,39 @@ theorem C02_static_sizes_agree (tc : Ty) (t : Lay.Ty) (h : Lay.toLay tc = some t
 
 theorem C02_field_sizes_agree (fs : List (String × Ty)) (ts : List Lay.Ty) (h : Lay.toLayFields fs = some ts) :
     Lay.SameSizes fs ts := Lay.sameSizes_toLay fs ts h
+
+/-- **the generated accessor addresses the element the Python view addresses**: for every reference-free type of the grammar
+(translated by `toLay`), every selector path - struct fields and array index tuples at any depth, static and dynamic sizes,
+every permutation of the axes - ending in a scalar element, and every memory that holds the written object at `off`: the
+generated accessor, called with the object's address (`obj = off`) and its index arguments, returns for the access path `cparts`
+(the path the generator emits accessors for) exactly the element's offset `leafAt` inside the object -/
+theorem C02_path_address (sels : List Lay.Sel) (tc : Ty) (t : Lay.Ty) (v : Lay.Val) (ps : List Part) (ix p : List Nat) (lo w : Nat)
+    (htl : Lay.toLay tc = some t) (hwp : t.WFP) (hc : Lay.Conf t v) (hs : Lay.vsize t v < 2 ^ 64)
+    (hcp : Lay.cparts tc sels = some (ps, ix)) (hlp : Lay.lpath t v sels = some p) (hleaf : Lay.leafAt t v p = some (lo, w))
+    (m0 : MemS.Mem) (off : Nat) (hb : off + Lay.vsize t v ≤ m0.length) (m' : MemS.Mem)
+    (hag : Lay.Agree m' (Lay.apply (Lay.shift off (Lay.patchesD t v)) m0) off (off + Lay.vsize t v)) :
+    execAll (Lay.ldM m') (off : Int) (ix.map Int.ofNat) 0 (genStmts ps 0 0) = (lo : Int) := by
+  rw [C02_addr]
+  exact Lay.c_path_offset sels tc t v ps ix p lo w htl hwp hc hs hcp hlp hleaf m0 off hb m' hag (ix.map Int.ofNat) 0
+    (fun j hj => by
+      simp only [Nat.zero_add, List.getD_eq_getElem?_getD, List.getElem?_map, List.getElem?_eq_getElem hj]
+      rfl)
+
+/-- **end to end, getter**: the `w` bytes the generated getter loads - at the object's address plus the offset its emitted
+statements compute - are the little-endian image of exactly the element `getAt t v p` that the Python accessors return -/
+theorem C02_getter_reads_element (sels : List Lay.Sel) (tc : Ty) (t : Lay.Ty) (v : Lay.Val) (ps : List Part) (ix p : List Nat)
+    (lo w : Nat) (htl : Lay.toLay tc = some t) (hwp : t.WFP) (hc : Lay.Conf t v) (hs : Lay.vsize t v < 2 ^ 64)
+    (hcp : Lay.cparts tc sels = some (ps, ix)) (hlp : Lay.lpath t v sels = some p) (hleaf : Lay.leafAt t v p = some (lo, w))
+    (m0 : MemS.Mem) (off : Nat) (hb : off + Lay.vsize t v ≤ m0.length) (m' : MemS.Mem)
+    (hag : Lay.Agree m' (Lay.apply (Lay.shift off (Lay.patchesD t v)) m0) off (off + Lay.vsize t v)) :
+    ∃ b, Lay.getAt t v p = some b ∧ b < 256 ^ w ∧
+      MemS.fromLE (MemS.readAt m'
+        ((off : Int) + execAll (Lay.ldM m') (off : Int) (ix.map Int.ofNat) 0 (genStmts ps 0 0)).toNat w) = b := by
+  rw [C02_path_address sels tc t v ps ix p lo w htl hwp hc hs hcp hlp hleaf m0 off hb m' hag]
+  obtain ⟨b, h1, h2, _, h4⟩ := Lay.leaf_read p t v lo w (Lay.wfp_wf t hwp) hc hs hleaf m0 off hb m' hag
+  refine ⟨b, h2, h1, ?_⟩
+  rw [← Int.natCast_add, Int.toNat_natCast]
+  exact h4
 
 /-! non-vacuity: `Int32[:, 3]` with 2 rows stored in F order at offset 8 of an 80-byte buffer (dimensions and strides in the
 header): the C arithmetic for index (1, 2) gives buffer offset 60, which is memory position 5, where the written item 15 is -/
